@@ -45,7 +45,10 @@ import (
 	"tunnox-core/internal/cloud/services"
 	coreerrors "tunnox-core/internal/core/errors"
 	"tunnox-core/internal/core/idgen"
+	"tunnox-core/internal/cloud/stats"
+	"tunnox-core/internal/constants"
 	"tunnox-core/internal/core/storage"
+	"tunnox-core/internal/core/storage/memory"
 	"tunnox-core/internal/core/types"
 	"tunnox-core/internal/packet"
 	"tunnox-core/internal/protocol/session"
@@ -64,6 +67,22 @@ type pipeEnd struct {
 	peer   *pipeEnd
 	name   string
 	rdl    time.Time
+	// gated double: when armed, the next Write blocks (gateHit is closed) until gateRelease is closed
+	gateArmed   bool
+	gateHit     chan struct{}
+	gateRelease chan struct{}
+}
+
+// armGate makes the next Write on this end stop before it delivers anything, until release() is called.
+func (p *pipeEnd) armGate() (hit <-chan struct{}, release func()) {
+	p.mu.Lock()
+	defer p.mu.Unlock()
+	p.gateArmed = true
+	p.gateHit = make(chan struct{})
+	p.gateRelease = make(chan struct{})
+	rel := p.gateRelease
+	var once sync.Once
+	return p.gateHit, func() { once.Do(func() { close(rel) }) }
 }
 
 func newPipe(name string) (srv, cli *pipeEnd) {
@@ -104,7 +123,16 @@ func (p *pipeEnd) Read(b []byte) (int, error) {
 func (p *pipeEnd) Write(b []byte) (int, error) {
 	p.mu.Lock()
 	cl := p.closed
+	var rel chan struct{}
+	if p.gateArmed {
+		p.gateArmed = false
+		rel = p.gateRelease
+		close(p.gateHit)
+	}
 	p.mu.Unlock()
+	if rel != nil {
+		<-rel
+	}
 	if cl {
 		return 0, net.ErrClosed
 	}
@@ -173,6 +201,42 @@ func (p *pipeEnd) drain() {
 	p.mu.Lock()
 	p.in.Reset()
 	p.mu.Unlock()
+}
+
+// ---------------------------------------------------------------- gated store
+
+// gateStore is the real memory storage; when armed for a key, the next Set of that key stops before it writes,
+// until released: the caller sits between its read and its write of the record (a read-modify-write in flight).
+type gateStore struct {
+	*memory.Storage
+	mu      sync.Mutex
+	key     string
+	hit     chan struct{}
+	release chan struct{}
+}
+
+func (g *gateStore) arm(key string) (hit <-chan struct{}, release func()) {
+	g.mu.Lock()
+	defer g.mu.Unlock()
+	g.key, g.hit, g.release = key, make(chan struct{}), make(chan struct{})
+	rel := g.release
+	var once sync.Once
+	return g.hit, func() { once.Do(func() { close(rel) }) }
+}
+
+func (g *gateStore) Set(key string, value any, ttl time.Duration) error {
+	g.mu.Lock()
+	var rel chan struct{}
+	if g.key != "" && key == g.key {
+		g.key = ""
+		rel = g.release
+		close(g.hit)
+	}
+	g.mu.Unlock()
+	if rel != nil {
+		<-rel
+	}
+	return g.Storage.Set(key, value, ttl)
 }
 
 // ---------------------------------------------------------------- auth double
@@ -323,7 +387,7 @@ func parseCase(s string) (c *caseT, err error) {
 	if i < len(t) {
 		expect("late")
 		c.late = next()
-		if c.late != "bridge" && c.late != "route" && c.late != "remote" {
+		if c.late != "bridge" && c.late != "route" && c.late != "remote" && c.late != "window" {
 			panic("bad late " + c.late)
 		}
 		c.lateMid = next()
@@ -347,6 +411,9 @@ type world struct {
 	sm     *session.SessionManager
 	mrepo  *repos.PortMappingRepo
 	pms    services.PortMappingService
+	ccs    *services.ConnectionCodeService
+	cc     *managers.BuiltinCloudControl
+	gs     *gateStore
 	rt     *session.TunnelRoutingTable
 	conns  []*pipeEnd
 	ln     net.Listener
@@ -356,12 +423,14 @@ type world struct {
 func newWorld() *world {
 	w := &world{}
 	w.ctx, w.cancel = context.WithCancel(context.Background())
-	st := storage.NewMemoryStorage(w.ctx)
+	w.gs = &gateStore{Storage: memory.New(w.ctx)}
+	var st storage.Storage = w.gs
 	repo := repos.NewRepository(st)
 	cc := factories.NewBuiltinCloudControlWithRepo(w.ctx, managers.DefaultConfig(), st, repo)
 	w.mrepo = repos.NewPortMappingRepo(repo)
 	w.pms = cc.GetPortMappingService()
 	ccs := services.NewConnectionCodeService(repos.NewConnectionCodeRepository(repo), cc.GetPortMappingService(), w.mrepo, nil, w.ctx)
+	w.ccs, w.cc = ccs, cc
 	th := server.NewServerTunnelHandler(cc, ccs)
 	w.sm = session.NewSessionManager(idgen.NewIDManager(st, w.ctx), w.ctx)
 	w.sm.SetTunnelHandler(th)
@@ -572,6 +641,125 @@ func runE2E() string {
 	return fmt.Sprintf("secret %s src %s tgt %s data %s", sec, srcAck, tgtAck, b2s(data))
 }
 
+// runRMW: a revocation racing a read-modify-write of the same mapping record.
+//
+//	case: rmw <usage|stats|status>    obs: revoked <0|1> ack <..> att <..> data <0|1>
+//
+// usage  = the listen client opens a tunnel: HandleTunnelOpen → RecordMappingUsage reads the record, sets LastActive
+//          and writes the whole record back (its write is held by the gated store);
+// stats  = the bridge's periodic traffic report: UpdatePortMappingStats, same read-modify-write shape;
+// status = UpdatePortMappingStatus(active) (re-activation by configuration push).
+// While that write is pending the target client revokes the mapping (conncode.RevokeMapping, real code).  The
+// pending write is then let through.  Afterwards the target client presents the mapping's secret for the waiting
+// tunnel: the mapping was revoked, so the request must be refused.
+func runRMW(writer string) string {
+	w := newWorld()
+	defer w.close()
+	if err := w.mrepo.CreatePortMapping(toModel(mapM)); err != nil {
+		return "setup-failed:create-mapping"
+	}
+	key := fmt.Sprintf("%s:%s", constants.KeyPrefixPortMapping, mapM.id)
+	src, err := w.connect("S")
+	if err != nil {
+		return "setup-failed:connect"
+	}
+	w.handshake(src, mapM.listen, true)
+	if writer != "usage" {
+		w.open(src, openPayload(mapM.id, "", "")) // the waiting tunnel exists before the race
+		src.cli.drain()
+	}
+	hit, release := w.gs.arm(key)
+	defer release()
+	wdone := make(chan struct{})
+	go func() {
+		defer close(wdone)
+		defer func() { recover() }()
+		switch writer {
+		case "usage":
+			w.open(src, openPayload(mapM.id, "", ""))
+		case "stats":
+			w.cc.UpdatePortMappingStats(mapM.id, &stats.TrafficStats{BytesSent: 10, BytesReceived: 20, LastUpdated: time.Now()})
+		case "status":
+			w.pms.UpdatePortMappingStatus(mapM.id, models.MappingStatusActive)
+		}
+	}()
+	select {
+	case <-hit:
+	case <-time.After(5 * time.Second):
+		return "setup-failed:writer-not-at-write"
+	}
+	rdone := make(chan error, 1)
+	go func() { rdone <- w.ccs.RevokeMapping(mapM.id, mapM.target, "target-client") }()
+	var rerr error
+	revDone := false
+	select { // as found the revocation completes here; serialised writers make it wait for the pending write
+	case rerr = <-rdone:
+		revDone = true
+	case <-time.After(100 * time.Millisecond):
+	}
+	release()
+	<-wdone
+	if !revDone {
+		select {
+		case rerr = <-rdone:
+		case <-time.After(5 * time.Second):
+			return "setup-failed:revoke-stuck"
+		}
+	}
+	if rerr != nil {
+		return "setup-failed:revoke-error"
+	}
+	w.readBarrier(mapM.id)
+	src.cli.drain()
+	revoked := false
+	if pm, err := w.mrepo.GetPortMapping(mapM.id); err == nil {
+		revoked = pm.IsRevoked
+	}
+	if _, sID, _, ok := w.sm.VerifBridgeEnds(tunnelID); !ok || sID == "" {
+		return "setup-failed:no-waiting-bridge"
+	}
+	r, err := w.connect("R")
+	if err != nil {
+		return "setup-failed:connect"
+	}
+	w.handshake(r, mapM.target, true)
+	done := make(chan struct{})
+	go func() { defer close(done); defer func() { recover() }(); w.open(r, openPayload(mapM.id, mapM.secret, "")) }()
+	select {
+	case <-done:
+	case <-time.After(1500 * time.Millisecond):
+	}
+	ack, _ := readAck(r.cli.snapshot())
+	att := "none"
+	if _, s, t, ok := w.sm.VerifBridgeEnds(tunnelID); ok {
+		if t == r.id {
+			att = "tgt"
+		} else if s == r.id {
+			att = "src"
+		}
+	}
+	src.cli.Write([]byte(marker))
+	wait := 25 * time.Millisecond
+	if att != "none" {
+		wait = 800 * time.Millisecond
+	}
+	data := false
+	for dl := time.Now().Add(wait); ; {
+		if _, rest := readAck(r.cli.snapshot()); bytes.Contains(rest, []byte(marker)) {
+			data = true
+			break
+		}
+		if !time.Now().Before(dl) {
+			break
+		}
+		time.Sleep(time.Millisecond)
+	}
+	if data {
+		waitEcho(r, src)
+	}
+	return fmt.Sprintf("revoked %s ack %s att %s data %s", b2s(revoked), ack, att, b2s(data))
+}
+
 func runCase(c *caseT) (obs string) {
 	return guarded(func() string { return runCaseInner(c) })
 }
@@ -715,6 +903,14 @@ func runCaseInner(c *caseT) string {
 	case "empty":
 		payload = nil
 	}
+	var gateHit <-chan struct{}
+	releaseGate := func() {}
+	if c.late == "window" {
+		// the requester's acknowledgement is written after the dispatcher's own bridge/route look-ups and before
+		// handleTargetBridge / startSourceBridge look again: holding that write opens exactly this window
+		gateHit, releaseGate = r.srv.armGate()
+	}
+	defer releaseGate()
 	done := make(chan error, 1)
 	go func() {
 		defer func() {
@@ -737,7 +933,31 @@ func runCaseInner(c *caseT) string {
 		}
 		return "err"
 	}
-	if c.late != "" {
+	if c.late == "window" {
+		select {
+		case <-gateHit:
+			lm, listed := final[c.lateMid]
+			if !listed {
+				return "setup-failed:late-mapping"
+			}
+			s, err := w.connect("S")
+			if err != nil {
+				return "setup-failed:connect"
+			}
+			w.handshake(s, lm.listen, true)
+			w.open(s, openPayload(lm.id, "", ""))
+			if mid, sID, _, ok := w.sm.VerifBridgeEnds(tunnelID); !ok || mid != lm.id || sID == "" {
+				return "setup-failed:window-bridge"
+			}
+			s.cli.drain()
+			src = s
+			releaseGate()
+		case e := <-done:
+			ret, finished = classify(e), true // returned without writing anything
+		case <-time.After(5 * time.Second):
+			return "setup-failed:window-not-reached"
+		}
+	} else if c.late != "" {
 		// The request found nothing at arrival.  Every path of handleTunnelOpen writes its acknowledgement only
 		// after the arrival-time bridge and route lookups, so once the ack is on the wire (or the call returned) the
 		// arrival phase is over: the request is refused, owns a new bridge, or polls.  Only then does the tunnel appear.
@@ -935,7 +1155,7 @@ func lateMatrix() []*caseT {
 		{"F", "", ""}, {"F", "s3cretF", ""}}
 	for _, id := range ids {
 		for _, cr := range creds {
-			for _, kind := range []string{"bridge", "route", "remote"} {
+			for _, kind := range []string{"bridge", "route", "remote", "window"} {
 				for _, mid := range []string{"M", "F"} {
 					out = append(out, &caseT{pl: "ok", hs: id.hs, cid: id.cid, rmid: cr[0], rsec: cr[1], rtok: cr[2],
 						maps: []mappingT{mapM, mapF}, ts: "none", late: kind, lateMid: mid})
@@ -1045,14 +1265,15 @@ func randomCases(r *vc.Rand, n int) []*caseT {
 			c.ts, c.tsMid, c.served = "none", "", false
 		} else if c.ts == "none" && r.Intn(2) == 0 {
 			// the tunnel appears while the request polls
-			c.late = []string{"bridge", "bridge", "route", "remote"}[r.Intn(4)]
+			c.late = []string{"bridge", "window", "route", "remote", "window"}[r.Intn(5)]
 			c.lateMid = vc.Pick(r, ids)
-			if c.late == "bridge" {
+			if c.late == "bridge" || c.late == "window" {
+				kind := c.late
 				// a bridge can only be opened by the rightful listen client of a usable, listed mapping
 				c.late = ""
 				for _, x := range c.maps {
 					if x.active && !x.revoked && x.expired != 1 && (x.id == c.lateMid || c.late == "") {
-						c.late, c.lateMid = "bridge", x.id
+						c.late, c.lateMid = kind, x.id
 					}
 				}
 			}
@@ -1074,6 +1295,10 @@ func runAll(out *vc.Out, lines []string, tag string) {
 		go func(i int) {
 			defer wg.Done()
 			defer func() { <-sem }()
+			if f := strings.Fields(lines[i]); len(f) == 2 && f[0] == "rmw" {
+				obs[i] = guarded(func() string { return runRMW(f[1]) })
+				return
+			}
 			if strings.TrimSpace(lines[i]) == "e2e" {
 				obs[i] = guarded(runE2E)
 				return
@@ -1140,6 +1365,7 @@ func main() {
 		}
 		runAll(out, lines, "late-matrix")
 		runAll(out, []string{"e2e"}, "e2e")
+		runAll(out, []string{"rmw usage", "rmw stats", "rmw status"}, "rmw")
 		n := 600
 		if *tier == "thorough" {
 			n = 12000
